@@ -259,10 +259,27 @@ func replayCorpus(pd *propDef, c *Ctx, repo, vdir string, extra map[string]inter
 			kind[m.Name] = "mutant"
 		}
 	}
-	for _, r := range refs {
+	// the refactoring corpus has grown to a couple of hundred entries: a thorough run replays a
+	// deterministic sample of at most 64 of them per property (every k-th in name order, the
+	// offset depending on the property); tools/refrun.py replays all of them for all properties
+	sort.Slice(refs, func(i, j int) bool { return refs[i].Name < refs[j].Name })
+	step := (len(refs) + 63) / 64
+	if step < 1 {
+		step = 1
+	}
+	off := 0
+	for _, ch := range pd.ID {
+		off += int(ch)
+	}
+	nRefAll := len(refs)
+	for i, r := range refs {
+		if (i+off)%step != 0 {
+			continue
+		}
 		todo = append(todo, r)
 		kind[r.Name] = "refactor"
 	}
+	extra["corpus_refactorings_sampled"] = fmt.Sprintf("every %d-th of %d stored refactorings", step, nRefAll)
 	if len(todo) == 0 {
 		extra["corpus"] = "no corpus entries for this property"
 		return
@@ -272,7 +289,7 @@ func replayCorpus(pd *propDef, c *Ctx, repo, vdir string, extra map[string]inter
 		name, kind, verdict, detail string
 	}
 	results := make([]res, len(todo))
-	sem := make(chan struct{}, 4)
+	sem := make(chan struct{}, 8)
 	var wg sync.WaitGroup
 	for i, e := range todo {
 		wg.Add(1)
